@@ -1,5 +1,256 @@
+import NA.Model.Cursor
+import NA.Model.CursorLinux
+import NA.Model.CursorHttp
+import NA.Gen.PanicSites
 import NA.Core.IOUtil
-/-! Driver stub for C20 (not built yet): echoes its input. -/
+/-!
+Driver for C20: one request per line, fields separated by U+001F, list items by U+001E,
+second level by U+001D (newline inside a file: U+001D as well, see `parse` / `linux`).
+Answer: `ok:<payload>` | `diag:<message>` | `panic:<kind>:<site>`; newlines in the answer are
+written as U+001D.
+
+ acl    fixed asa|ios orig parsed
+ match  prefix words descrs            descr = ign(0|1) U+001D tok U+001D tok …
+ parse  fixed asa|ios isRaw data
+ aaa    fixed orig parsed
+ route  fixed v6(0|1) orig parsed
+ vrf    fixed orig parsed
+ metric parsed
+ linux  data
+ nsx    fixed isRaw policies groups services
+ nsxacc fixed kind …
+ panos  fixed p1 p2
+ info   fixed items                    item = n | e | c<dec><null><ip>
+ descr  asa|ios                        dump of the regenerated command descriptions
+-/
+namespace NA.Drv.C20
+open NA.C20 NA.C20.Res
+
+def US : Char := '\x1f'
+def RS : Char := '\x1e'
+def GS : Char := '\x1d'
+
+def splitOnC (c : Char) (s : String) : List String := s.splitOn (String.singleton c)
+def listOf (c : Char) (s : String) : List String := if s.isEmpty then [] else splitOnC c s
+
+def str (s : Str) : String := String.ofList s
+def esc (s : String) : String := s.replace "\n" (String.singleton GS)
+
+def showPanic : Panic → String
+  | .index s => "index:" ++ s
+  | .slice s => "slice:" ++ s
+  | .nilDeref s => "nil:" ++ s
+  | .explicit s => "explicit:" ++ s
+
+def showRes {α : Type} (f : α → String) : Res α → String
+  | .ok a => "ok:" ++ f a
+  | .diag m => "diag:" ++ str m
+  | .panic p => "panic:" ++ showPanic p
+
+def joinC (c : Char) (l : List String) : String := (String.singleton c).intercalate l
+
+def mkTable (l : List (String × String)) : Str → Option Str :=
+  fun k => (l.find? (fun kv => kv.1.toList = k)).map (fun kv => kv.2.toList)
+
+def tables : Tables :=
+  { protoNonNumeric := mkTable NA.Gen.PanicSites.protoNonNumeric
+    protoNames := mkTable NA.Gen.PanicSites.protoNames
+    tcpNames := mkTable NA.Gen.PanicSites.tcpNames
+    udpNames := mkTable NA.Gen.PanicSites.udpNames
+    icmpTypeCodes := mkTable NA.Gen.PanicSites.icmpTypeCodes
+    icmp6Types := mkTable NA.Gen.PanicSites.icmp6Types
+    logNames := mkTable NA.Gen.PanicSites.logNames }
+
+def toDescr (d : NA.Gen.PanicSites.RawDescr) : Descr :=
+  { pre := d.pre.toList, template := d.template.map String.toList, ignore := d.ignore,
+    sub := d.sub.map fun s => (s.1.map String.toList, s.2) }
+
+def descrOf (m : String) : List Descr :=
+  if m == "asa" then NA.Gen.PanicSites.asaDescr.map toDescr else NA.Gen.PanicSites.iosDescr.map toDescr
+
+def b (s : String) : Bool := s == "1"
+
+/-! ### parse: loop + the panic-relevant part of postprocessParsed + dump -/
+
+def prefixOf (ds : List Descr) (c : Cmd) : Str := (ds.getD c.descr { pre := [], template := [], ignore := false }).pre
+
+/-- group commands by (prefix, name) in order of first appearance. -/
+def groupCmds (ds : List Descr) (cmds : List Cmd) : List ((Str × Str) × List Cmd) :=
+  cmds.foldl (fun acc c =>
+    let k := (prefixOf ds c, c.name)
+    if acc.any (fun g => g.1 = k) then acc.map (fun g => if g.1 = k then (g.1, g.2 ++ [c]) else g)
+    else acc ++ [(k, [c])]) []
+
+def showFail {α : Type} : Res α → Option String
+  | .ok _ => none
+  | .diag m => some ("diag:" ++ str m)
+  | .panic p => some ("panic:" ++ showPanic p)
+
+def entry (pre name : Str) (c : Cmd) : String :=
+  let a := fun (x : Cmd) => (if x.app then "+" else "") ++ str x.orig
+  str pre ++ "|" ++ str name ++ "|" ++ a c ++ "|" ++ "|".intercalate (c.sub.map a)
+
+def parseAnswer (fixed : Bool) (model : String) (isRaw : Bool) (data : Str) : String :=
+  let ds := descrOf model
+  match parseConfig fixed ds isRaw data with
+  | .diag m => "diag:" ++ str m
+  | .panic p => "panic:" ++ showPanic p
+  | .ok cmds =>
+    let groups := groupCmds ds cmds
+    -- failures of postprocessParsed, in the order of the code: ASA ACLs, IOS ACLs, aaa-server
+    let f1 := (cmds.filter (fun c => prefixOf ds c = lit "access-list")).filterMap
+      (fun c => showFail (asaACL fixed tables c.orig c.parsed))
+    let iosGroups := groups.filter (fun g => g.1.1 = lit "ip access-list extended")
+    let f2 := iosGroups.flatMap fun g =>
+      match g.2 with
+      | c0 :: _ => c0.sub.filterMap (fun sc => showFail (iosACL fixed tables sc.orig sc.parsed))
+      | [] => []
+    let f3 := (groups.filter (fun g => g.1.1 = lit "aaa-server")).filterMap
+      (fun g => showFail (aaaGroup fixed g.1.2 g.2))
+    -- dump
+    let dump := groups.flatMap fun g =>
+      let pre := if g.1.1 = lit "crypto map" ∧ g.1.2 = [] then lit "crypto map interface" else g.1.1
+      let l : List Cmd :=
+        if g.1.1 = lit "aaa-server" then
+          match aaaGroup fixed g.1.2 g.2 with
+          | .ok l' => l'
+          | _ => g.2
+        else if g.1.1 = lit "ip access-list extended" then
+          match g.2 with
+          | c0 :: rest =>
+            { c0 with sub := c0.sub.map fun sc =>
+                match iosACL fixed tables sc.orig sc.parsed with
+                | .ok r => { sc with orig := r.2.1 }
+                | _ => sc } :: rest
+          | [] => []
+        else g.2
+      l.map (entry pre g.1.2)
+    "ok:" ++ joinC RS (f1 ++ f2 ++ f3) ++ String.singleton US ++ joinC RS dump
+
+/-! ### NSX / PAN-OS encodings -/
+
+def nItems (n : Nat) : List Str := List.replicate n (lit "x")
+
+def decRule (s : String) : Option Nsx.Rule :=
+  if s == "-" then none else
+  match splitOnC ',' s with
+  | [id, a, c, d] => some { id := id.toList, src := nItems a.toNat!, dst := nItems c.toNat!, srv := nItems d.toNat! }
+  | _ => none
+
+def decPolicy (s : String) : Option Nsx.Policy :=
+  if s == "-" then none else
+  match splitOnC GS s with
+  | id :: rules => some { id := id.toList, rules := rules.map decRule }
+  | [] => none
+
+def decGroup (s : String) : Option Nsx.Group :=
+  if s == "-" then none else
+  match splitOnC GS s with
+  | id :: exprs => some { id := id.toList, expression := exprs.map fun e =>
+      if e == "-" then none else some { ips := (listOf ',' e).map String.toList } }
+  | [] => none
+
+def decService (s : String) : Option Nsx.Service := if s == "-" then none else some { id := s.toList }
+
+def decPan (s : String) : PanOs.Config :=
+  if s == "nil" then { devices := none }
+  else { devices := some ((listOf RS s).map fun d =>
+    match splitOnC GS d with
+    | name :: vs => { name := name.toList, vsys := vs.filterMap fun v =>
+        match splitOnC '=' v with
+        | [n, r] => some { name := n.toList, nRules := r.toNat! }
+        | _ => none }
+    | [] => { name := [], vsys := [] }) }
+
+def showPan (c : PanOs.Config) : String :=
+  match c.devices with
+  | none => "nil"
+  | some ds => toString ds.length ++ String.join (ds.map fun d =>
+      "/" ++ toString d.vsys.length ++ String.join (d.vsys.map fun v => ":" ++ str v.name ++ "=" ++ toString v.nRules))
+
+def decOpen (s : String) : Files.OpenRes :=
+  match s.toList with
+  | ['n'] => .notExist
+  | ['e'] => .otherErr
+  | ['c', d, n, i] => .content (d == '1') (n == '1') (i == '1')
+  | _ => .notExist
+
+/-! ### Linux dump -/
+
+def dedupKeys (pairs : List (Str × Str)) : List Str :=
+  pairs.foldl (fun acc p => if acc.contains p.1 then acc else acc ++ [p.1]) []
+
+def linuxDump (r : List Linux.Route × List Linux.Table) : String :=
+  let routes := r.1.map fun x => "route|" ++ str x.ip ++ "|" ++ toString x.pfx ++ "|" ++ str x.hop ++ "|" ++ str x.orig
+  let tabs := r.2.map fun t =>
+    "table|" ++ str t.name ++ String.singleton GS ++ joinC GS (t.chains.map fun ch =>
+      "chain|" ++ str t.name ++ "|" ++ str ch.name ++ "|" ++ str ch.policy ++
+        String.join (ch.rules.map fun ru =>
+          String.singleton RS ++ "rule|" ++ (if ru.app then "true" else "false") ++ "|" ++ str ru.orig ++ "|" ++
+            ",".intercalate ((dedupKeys ru.pairs).map str)))
+  joinC US (routes ++ tabs)
+
+def showDescr (ds : List Descr) : String :=
+  joinC RS (ds.map fun d =>
+    str d.pre ++ String.singleton GS ++ " ".intercalate (d.template.map str) ++ String.singleton GS ++
+      (if d.ignore then "1" else "0") ++ String.singleton GS ++
+      ";".intercalate (d.sub.map fun s => (if s.2 then "!" else "") ++ " ".intercalate (s.1.map str)))
+
+def answer (line : String) : String :=
+  match splitOnC US line with
+  | ["acl", fx, kind, orig, parsed] =>
+    if kind == "asa" then
+      esc <| showRes (fun (o : Option (Str × List Str)) =>
+        match o with
+        | none => "-"
+        | some (p, refs) => str p ++ String.singleton US ++ joinC RS (refs.map str))
+        (asaACL (b fx) tables orig.toList parsed.toList)
+    else
+      esc <| showRes (fun (r : Str × Str × List Str) =>
+        str r.1 ++ String.singleton US ++ str r.2.1 ++ String.singleton US ++ joinC RS (r.2.2.map str))
+        (iosACL (b fx) tables orig.toList parsed.toList)
+  | ["match", pre, words, descrs] =>
+    let ws := (splitOnC RS words).map String.toList
+    let ds := (listOf RS descrs).map fun d =>
+      match splitOnC GS d with
+      | ign :: toks => (toks.map String.toList, ign == "1")
+      | [] => ([], false)
+    esc <| showRes (fun (o : Option Cmd) =>
+      match o with
+      | none => "-"
+      | some c => joinC US [toString c.descr, str c.orig, str c.parsed, str c.name, toString c.seq,
+          joinC RS (c.ref.map str)])
+      (matchCmd pre.toList (if words.isEmpty then [] else ws) ((indexed ds).map fun x => (x.1, x.2.1, x.2.2)))
+  | ["parse", fx, model, raw, data] =>
+    esc (parseAnswer (b fx) model (b raw) ((data.replace (String.singleton GS) "\n").toList))
+  | ["aaa", fx, orig, parsed] =>
+    esc <| showRes (fun (o : Option Str) => match o with | none => "-" | some p => str p)
+      (aaaHost (b fx) orig.toList parsed.toList)
+  | ["route", fx, v6, orig, parsed] =>
+    esc <| showRes (fun (r : RouteWords) => joinC US [str r.vrf, str r.a, str r.b])
+      (dstOfRoute (b fx) (b v6) orig.toList parsed.toList)
+  | ["vrf", fx, orig, parsed] =>
+    esc <| showRes str (routeVRF (b fx) orig.toList parsed.toList)
+  | ["metric", parsed] => esc <| showRes str (stripMetric parsed.toList)
+  | ["linux", data] =>
+    esc <| showRes linuxDump (Linux.parseConfig ((data.replace (String.singleton GS) "\n").toList))
+  | ["nsx", fx, raw, pols, grps, srvs] =>
+    let c : Nsx.Config := { policies := (listOf RS pols).map decPolicy, groups := (listOf RS grps).map decGroup,
+                            services := (listOf RS srvs).map decService }
+    esc <| showRes (fun _ => "") (Nsx.validate (b fx) (b raw) c)
+  | ["nsxfirst", fx, grp] => esc <| showRes str (Nsx.firstAddr (b fx) (decGroup grp))
+  | ["nsxeq", fx, rule, path, ga, gb] =>
+    esc <| showRes (fun (x : Bool) => if x then "1" else "0")
+      (Nsx.equalizeHead (b fx) rule.toList path.toList (decGroup ga) (decGroup gb))
+  | ["panos", fx, p1, p2] => esc <| showRes showPan (PanOs.mergeSpoc (b fx) (decPan p1) (decPan p2))
+  | ["panosraw", fx, p] => esc <| showRes (fun _ => "") (PanOs.checkRaw (b fx) (decPan p))
+  | ["info", fx, items] =>
+    esc <| showRes (fun (x : Bool) => if x then "1" else "0") (Files.loadInfoFile (b fx) ((listOf RS items).map decOpen))
+  | ["descr", m] => esc (showDescr (descrOf m))
+  | _ => "bad-request"
+
+end NA.Drv.C20
+
 def main (_ : List String) : IO UInt32 := do
-  NA.IOUtil.eachLine id
+  NA.IOUtil.eachLine NA.Drv.C20.answer
   return 0
